@@ -192,6 +192,8 @@ func cmdRun(args []string) {
 	alloc := fs.Bool("alloc", false, "track allocations")
 	stubs := fs.String("stubs", "", "comma separated stub switches")
 	maxwall := fs.Int("wall", 0, "wall budget per job (s)")
+	preempt := fs.Int("preempt", 0, "thread mode: preemption bound (0: default 2, -1: none)")
+	ticks := fs.Int("ticks", 0, "thread mode: timer firings per path")
 	fs.Parse(args)
 	rest := fs.Args()
 	if len(rest) < 2 {
@@ -206,6 +208,8 @@ func cmdRun(args []string) {
 	j := Job{Pkg: rest[0], Func: rest[1], SplitN: *split, Threads: *threads}
 	j.Cfg.MaxLoop = *maxloop
 	j.Cfg.MaxWall = *maxwall
+	j.Cfg.Preempt = *preempt
+	j.Cfg.Ticks = *ticks
 	j.Cfg.PermuteMaps = *perm
 	j.Cfg.TrackAlloc = *alloc
 	j.Cfg.Stubs = map[string]bool{}
